@@ -83,6 +83,16 @@ CHECKS = {
     "C14": ("model_checking", "Same corpus; TLC compares each output with the brute-force hull of the supports, checks "
             "failure exactly without support, idempotence of a second call, and affine_eq against the one-round "
             "interval operator AffineEqRound.", TRUST_CALLS, TECH_CALLS),
+    "C15": ("model_checking", "spec/ProcessHistory.tla models one interpreter process over time (problem objects created and "
+            "re-used, solvers constructed / stepped / drained / abandoned, custom registrations in between); TLC "
+            "enumerates every history up to a bound, each is executed in one interpreter in interpreted and in compiled "
+            "mode, and TLC compares every step with the reference run made in a fresh interpreter (solutions, final "
+            "statistics, meaning of the problem object). Random instances are run twice per mode and compared by "
+            "spec/ModeTrace.tla.",
+            "Trusted: TLC, spec/ProcessHistory.tla + ModeTrace.tla, harness/rec_history.py; three problem templates x "
+            "three configurations for the histories; numba cache keyed by the source hash.",
+            "TLC-enumerated operation histories replayed into the real library (both execution modes) + TLA+ "
+            "judgement of every step against fresh-interpreter reference runs"),
     "C17": ("model_checking", "NucsAbs carries the observed event counts in the layout of the statistics array; at every "
             "pass end, yield, return and at the end the 13 reported counters must equal them; conservation laws are "
             "clauses of Done.", TRUST_ENGINE, TECH_ENGINE),
